@@ -231,6 +231,16 @@ func actionScenarios(big bool) []*Desc {
 	d.OctLo, d.OctHi, d.SemLo, d.SemHi = 0, 2, -2, 0
 	d.ChSet = []int{0, 1, 2, 3}
 	out = append(out, d)
+	// the panic action changes no parameter and does not disturb pair detection: one key of a pair held, panic tapped,
+	// then the partner - that press still completes the pair (and a lone press after panic still moves by exactly one)
+	d = base("actions-panic-between-pair", "off")
+	d.Channel = 3
+	d.Mappings = []MapDesc{{Name: "M0", Keys: km{K1: {60, 0}}}, {Name: "M1", Keys: km{K1: {61, 2}}}}
+	d.DefMap = "M1"
+	acts(d, PA, "panic", OU, "octave_up", OD, "octave_down", CU, "channel_up", CD, "channel_down")
+	d.OctLo, d.OctHi = 0, 2
+	d.ChSet = []int{0, 1, 2, 3}
+	out = append(out, d)
 	// two keys bound to the same action (no opposite action in the alphabet, so "a pair" stays unambiguous):
 	// every press moves the value by exactly one, also while the other key of that action is still held
 	for v := 0; v < 2; v++ {
@@ -267,6 +277,14 @@ func exitScenarios(big bool) []*Desc {
 	out = append(out, mkd("exit-2-note-action", []string{K1, OU}))
 	out = append(out, mkd("exit-3", []string{AL, K2, OU}))
 	out = append(out, mkd("exit-3-unmapped", []string{AL, X1, X2}))
+	// a key bound to the action "exit" (the parser accepts it; it has no behaviour of its own): the signal
+	// still depends on the exit sequence alone - never with an empty one, not before the sequence is complete
+	de := mkd("exit-0-exit-action-key", nil)
+	acts(de, X2, "exit")
+	out = append(out, de)
+	de = mkd("exit-2-exit-action-key", []string{AL, PA})
+	acts(de, X2, "exit")
+	out = append(out, de)
 	// one sequence key is delivered by another sub-handler of the device (keyboards split their keys over several nodes)
 	ds := mkd("exit-2-across-subhandlers", []string{AL, X2})
 	ds.Mappings[0].SubKeys = map[string]map[string]KeyNote{"Keyboard": {X2: {70, 0}, K3: {60, 0}}}
